@@ -143,7 +143,7 @@ def gen_case(rnd, cname, prop, shape=None, mask_p=None, force_dt=None, zero_weig
             fine = True
     zeros = cname == "ADividedByB" and rnd.random() < 0.5
     arrays = [gen_array(rnd, shape, dt, fuzzy, mask_p, hostile, big=big and dt != "DInt", fine=fine, zeros=zeros) for dt in dts]
-    if n >= 2 and cname in cc.NARY and rnd.random() < 0.12:
+    if n >= 2 and cname in cc.NARY and rnd.random() < 0.12 and not big:     # (not next to values near the top of a narrow type: two of them would legitimately wrap around)
         arrays[rnd.randrange(1, n)] = arrays[0]          # the same result mentioned twice in the list ([FA, FB, FA])
     if big:
         # the wide input carries values of the same magnitude as the narrow one
